@@ -7,7 +7,9 @@ def run(tier):
     exe = vlib.build(["drv_canvas"])["drv_canvas"]
     c.mc("Canvas", "MC_Canvas", "MC_Canvas.cfg", workers=12, timeout=1500)
     nsh = 10 if tier == "quick" else 16
-    traces = c.drive(exe, [["@OUT", tier, vlib.SEED, i, nsh] for i in range(nsh)], tag="canvas")
+    traces = []
+    for k, sd in enumerate(vlib.seeds(tier, 6)):
+        traces += c.drive(exe, [["@OUT", tier, sd, i, nsh] for i in range(nsh)], tag="canvas%d" % k)
     bads = c.validate("Canvas", "Trace_Canvas", traces, timeout=3400, xmx="6g")
     c.judge(bads)
     c.exhaustive = True
